@@ -180,6 +180,14 @@ func solveAll(w *World, obls []*Obligation, secs int, depth int, seed int, workD
 			defer wg.Done()
 			sem <- struct{}{}
 			defer func() { <-sem }()
+			secs := secs
+			for _, kf := range o.Findings {
+				if kf.Region == "" && secs > 12 {
+					// a known finding that covers the whole obligation: it is expected not to discharge; a short
+					// attempt is enough to notice that the defect has been repaired
+					secs = 12
+				}
+			}
 			file := filepath.Join(workDir, fmt.Sprintf("o%04d.smt2", i))
 			text := prelude + bodies[i]
 			if len(text) > 4<<20 {
